@@ -10,6 +10,7 @@ package main
 
 import (
 	"bytes"
+	"encoding/binary"
 	"encoding/json"
 	"fmt"
 	"math/rand"
@@ -26,10 +27,15 @@ func init() {
 	checks["C29"] = checkC29
 	replays["C29"] = func(r *Result, raw json.RawMessage) {
 		var rp struct {
-			Case c29Case `json:"case"`
+			Case c29Case  `json:"case"`
+			Ops  []string `json:"ops"`
 		}
 		if err := json.Unmarshal(raw, &rp); err != nil {
 			r.Notes = append(r.Notes, "replay: "+err.Error())
+			return
+		}
+		if len(rp.Ops) > 0 && rp.Ops[0] == "completed-writes-then-read" {
+			completedWritesThenRead(r, rand.New(rand.NewSource(7)), 3000)
 			return
 		}
 		if len(rp.Case.Streams) == 0 {
@@ -356,6 +362,106 @@ func checkC29(r *Result, rng *rand.Rand, thorough bool) {
 		rounds = 12000
 	}
 	sameNameStorm(r, rounds)
+	wr := 300
+	if thorough {
+		wr = 3000
+	}
+	completedWritesThenRead(r, rng, wr)
+}
+
+// completedWritesThenRead: real-time order on one file. 2-4 clients extend the same file at the same time through
+// the same handle (disjoint ranges), other clients LOOKUP / READDIRPLUS / GETATTR it meanwhile; every backend call
+// is delayed by a random yield. Once all WRITEs have been answered NFS3_OK, a READ of the whole file (attribute
+// cache at minimal TTL) must return every byte written: no serial order of the completed requests ends with a
+// shorter file.
+func completedWritesThenRead(r *Result, rng *rand.Rand, rounds int) {
+	fs := NewRefFS()
+	fs.logOn = false
+	seedFS(fs, []string{"mkdir /d"})
+	jit := rand.New(rand.NewSource(rng.Int63()))
+	var jmu sync.Mutex
+	fs.gate = func(call string) {
+		jmu.Lock()
+		k := jit.Intn(8)
+		jmu.Unlock()
+		switch {
+		case k < 3:
+			runtime.Gosched()
+		case k == 3:
+			time.Sleep(time.Duration(20+k*10) * time.Microsecond)
+		}
+	}
+	w := newWorldOn(fs, SrvCfg{AttrTTL: time.Nanosecond})
+	defer w.Close()
+	w.noTrace = true
+	absnfs.VerifClockOff()
+	dh, _ := w.handleFor("/d", rootCred())
+	short, first := 0, ""
+	for i := 0; i < rounds; i++ {
+		name := fmt.Sprintf("w%d", i)
+		h, st := w.srv.Lookup(dh, name, rootCred())
+		if st != 0 {
+			rep := w.srv.NFSCall(8, rootCred(), argCreate(dh, name, 0, Sattr{}, nil))
+			if status(rep) != 0 {
+				continue
+			}
+			h, _ = w.srv.Lookup(dh, name, rootCred())
+		}
+		writers := 2 + rng.Intn(3)
+		chunk := 10
+		var wg sync.WaitGroup
+		start := make(chan struct{})
+		okWrites := make([]bool, writers)
+		for k := 0; k < writers; k++ {
+			wg.Add(1)
+			go func(k int) {
+				defer wg.Done()
+				s2 := &Srv{NFS: w.srv.NFS, H: w.srv.H, S: w.srv.S, IP: "127.0.0.1", Port: 700 + k}
+				<-start
+				rep := s2.NFSCall(7, rootCred(), argWrite(h, uint64(k*chunk), uint32(chunk), 2, bytes.Repeat([]byte{byte('a' + k)}, chunk)))
+				okWrites[k] = status(rep) == 0
+			}(k)
+		}
+		for k := 0; k < 2; k++ {
+			wg.Add(1)
+			go func(k int) { // bystanders that make the server stat the file and re-install its node meanwhile
+				defer wg.Done()
+				s2 := &Srv{NFS: w.srv.NFS, H: w.srv.H, S: w.srv.S, IP: "127.0.0.1", Port: 800 + k}
+				<-start
+				if k == 0 {
+					s2.Lookup(dh, name, rootCred())
+					s2.NFSCall(1, rootCred(), fh(h))
+				} else {
+					s2.NFSCall(17, rootCred(), argReaddirplus(dh, 0, zeroVerf, 65536, 65536))
+				}
+			}(k)
+		}
+		close(start)
+		wg.Wait()
+		want := 0
+		for k, ok := range okWrites {
+			if ok && (k+1)*chunk > want {
+				want = (k + 1) * chunk
+			}
+		}
+		rep := w.srv.NFSCall(6, rootCred(), argRead(h, 0, 4096))
+		r.Histogram["completed-writes-then-read"]++
+		if status(rep) != 0 || len(rep.Data) < 104 {
+			continue
+		}
+		got := int(binary.BigEndian.Uint32(rep.Data[92:]))
+		if got < want {
+			short++
+			if first == "" {
+				first = fmt.Sprintf("round %d: %d clients each wrote %d bytes of /d/%s at disjoint offsets and all were answered NFS3_OK; the READ of the whole file that followed returned %d of %d bytes", i, writers, chunk, name, got, want)
+			}
+		}
+		w.srv.NFSCall(12, rootCred(), argDirop(dh, name))
+	}
+	r.noteCase("completed-writes-then-read", true)
+	if short > 0 {
+		r.violate(Violation{Class: "read-misses-completed-writes", What: fmt.Sprintf("%d of %d rounds; %s", short, rounds, first), Case: c29Case{Cached: false}, Ops: []string{"completed-writes-then-read"}})
+	}
 }
 
 // sameNameStorm: sharing handles — 8 clients LOOKUP the same name, which has no handle yet, at the same moment
